@@ -1,6 +1,7 @@
 """C12 - the frame queue is a bounded, duplicate-free FIFO of private copies. DESIGN §4/C12."""
 import copy
 
+from refmodels import net_ref
 from refmodels.net_ref import RefQueue
 from vsim.rig import Rig, repo
 
@@ -14,11 +15,18 @@ RULE = ("operation histories over {enqueue fresh | duplicate of a stored frame |
         "drained and compared frame by frame. Non-trivial: at least one enqueue was accepted; "
         "distinct = distinct operation histories (frame ids abstracted).")
 REQUIRED = {"enqueue_return": 50000, "dequeue_compare": 10000, "drain_compare": 50000,
-            "bound_after_accept": 10000, "toggle_preserves": 5000, "node_toggle": 50}
+            "bound_after_accept": 10000, "toggle_preserves": 5000, "node_toggle": 50, "walk_steps": 20000}
 BUDGET = {"quick": 480, "thorough": 900}
 EXHAUSTIVE = {"quick": "all 10^6 operation histories of depth 6", "thorough": "all 10^8 histories of depth 8"}
 
 OPS = ["e_fresh", "e_dup", "e_twin", "e_reuse", "deq", "peek", "len", "max_lo", "max_hi", "toggle"]
+# used by the random walks only (the exhaustive search keeps the 10-operation alphabet):
+#  e_near    - same origin and type as a stored frame, frame id differing by a multiple of 256 or in
+#              one high bit: NOT a duplicate
+#  e_fragmsg - a 2-fragment message arriving as FIRST + LAST (only a FrameQueueFrag reassembles)
+#  e_first   - a FIRST fragment alone (a message that never completes; restarts the assembly)
+OPS_WALK = OPS + ["e_near", "e_fragmsg", "e_first"]
+WILD = None  # reserved byte of a reassembled frame: not compared
 
 
 class St:
@@ -36,6 +44,13 @@ def _mk(m, frm, to, fid, typ, res, msg):
 def _tuple(f):
     return (f.header.from_node, f.header.frame_id, f.header.message_type, f.header.to_node,
             f.header.reserved, bytes(f.message))
+
+
+def _same(got, exp):
+    """tuple comparison in which a reference reserved byte of WILD matches anything"""
+    if got is None or exp is None or not isinstance(got, tuple) or not isinstance(exp, tuple):
+        return got == exp
+    return len(got) == len(exp) and all(e is WILD and i == 4 or g == e for i, (g, e) in enumerate(zip(got, exp)))
 
 
 def step(ctx, m, st, op, hist):
@@ -80,6 +95,34 @@ def step(ctx, m, st, op, hist):
         exp = st.ref.enqueue(src[0], src[1], typ, 0o3, 9, f.message)
         got = st.real.enqueue(f)
         ctx.clause("enqueue_return")
+    elif op == "e_near":
+        if not st.ref.q:
+            return True
+        src = st.ref.q[0]
+        st.ctr += 1
+        fid = [(src[1] + 256) & 0xFFFF, src[1] ^ 0x400, (src[1] + 0x1000) & 0xFFFF, src[1] ^ 0x8000][st.ctr % 4]
+        f = _mk(m, src[0], 0o3, fid, src[2], 3, b"near%d" % st.ctr)
+        exp = st.ref.enqueue(src[0], fid, src[2], 0o3, 3, f.message)
+        got = st.real.enqueue(f)
+        ctx.clause("enqueue_return")
+    elif op in ("e_fragmsg", "e_first"):
+        if not st.frag:
+            return True
+        st.ctr += 1
+        c = st.ctr
+        frm, fid, typ = 0o1 + c % 5, 3000 + c, 1 + c % 120
+        body = bytes([(c * 7 + i) % 256 for i in range(25 + c % 20)])
+        frames = net_ref.fragment(frm, 0o2, fid, typ, body)
+        got = None
+        for raw in (frames if op == "e_fragmsg" else frames[:1]):
+            fr = S.RF24NetworkFrame()
+            fr.unpack(bytearray(raw))
+            got = st.real.enqueue(fr)
+        if op == "e_first":
+            exp = got  # nothing is queued by a FIRST fragment; its return value is not specified
+        else:
+            exp = st.ref.enqueue(frm, fid, typ, 0o2, WILD, body)
+        ctx.clause("enqueue_return")
     elif op == "deq":
         exp = st.ref.dequeue()
         g = st.real.dequeue()
@@ -103,13 +146,13 @@ def step(ctx, m, st, op, hist):
         st.frag = not st.frag
         exp, got = before, (len(st.real), st.real.max_queue_size)
         ctx.clause("toggle_preserves")
-    if got != exp:
+    if not _same(got, exp):
         ctx.violation("%s-mismatch" % op.split("_")[0] if op.startswith("e_") is False else
                       "enqueue-return/%s" % op,
                       "%s returned %r, reference %r (max=%d len=%d; history %r)"
                       % (op, got, exp, st.ref.max, len(st.ref), hist + [op]), {"ops": hist + [op]})
         return False
-    if op.startswith("e_") and got:
+    if op.startswith("e_") and got and op != "e_first":
         ctx.clause("bound_after_accept")
         if len(st.real) > st.real.max_queue_size:
             ctx.violation("over-capacity", "enqueue accepted: %d frames with max_queue_size=%d "
@@ -128,7 +171,7 @@ def step(ctx, m, st, op, hist):
     got_all = []
     while len(clone):
         got_all.append(_tuple(clone.dequeue()))
-    if got_all != st.ref.q:
+    if len(got_all) != len(st.ref.q) or not all(_same(g, e) for g, e in zip(got_all, st.ref.q)):
         ctx.violation("content-mismatch", "queue content %r differs from reference %r "
                       "(history %r)" % (got_all[:3], st.ref.q[:3], hist + [op]),
                       {"ops": hist + [op]})
@@ -190,10 +233,27 @@ def run_shard(ctx):
             dfs(ctx, m, st, [a, b], depth - 2, len(st.ref) > 0)
         if ctx.vcount:
             break
+    _queue_walks(ctx, m)
     _node_walks(ctx, m)
     if ctx.shard == 0:
         ctx.sample({"history": ["e_fresh", "e_fresh", "max_lo", "e_fresh", "toggle", "deq"],
                     "note": "every history of the stated depth over the 9-op alphabet is run"})
+
+
+def _queue_walks(ctx, m):
+    """random walks over the wider alphabet (near-miss ids, messages arriving as fragments)"""
+    rng = ctx.sub_rng("c12walk", ctx.shard)
+    for w in range(60 if ctx.tier == "quick" else 3000):
+        st = fresh(m, frag=bool(w % 3))
+        hist = []
+        for _ in range(50):
+            op = rng.choice(OPS_WALK)
+            if not step(ctx, m, st, op, hist):
+                return
+            hist.append(op)
+            ctx.clause("walk_steps")
+        ctx.evaluations += 1
+        ctx.nontrivial(("walk", ctx.shard, w))
 
 
 def _node_walks(ctx, m):
@@ -211,7 +271,8 @@ def _node_walks(ctx, m):
                 r = rng.random()
                 if r < 0.45:
                     ctr += 1
-                    fields = (0o2 + ctr % 4, 0o1, ctr, 1 + ctr % 100, ctr % 256, bytes([ctr % 251]) * (ctr % 24))
+                    fid = (ctr * 257 + (ctr % 3) * 0x1000) & 0xFFFF  # ids beyond one byte, equal low bytes recur
+                    fields = (0o2 + ctr % 4, 0o1, fid, 1 + ctr % 100, ctr % 256, bytes([ctr % 251]) * (ctr % 24))
                     f = _mk(m, *fields)
                     exp = ref.enqueue(fields[0], fields[2], fields[3], fields[1], fields[4], fields[5])
                     got = node.queue.enqueue(f)
@@ -261,7 +322,7 @@ def run_case(ctx, case):
     st = fresh(m, frag=False)
     hist = []
     for op in case["ops"]:
-        if op not in OPS:
+        if op not in OPS_WALK:
             return
         if not step(ctx, m, st, op, hist):
             return
